@@ -8,8 +8,10 @@ Theorems about the model `PyAirtouch.Model.Sock` of `AirTouchSocket`.
 * `C01_once_in_order_without_fault`: the Spec monitor `onceInOrderWithoutFault` holds on every trace of
   the model (a first version of the monitor did not count a transport closed by the client itself as
   a fault and was refuted by a proved counterexample; the monitor was corrected).
-* `C01_nothing_pending_when_idle_connected`: while connected, the queue is empty unless a task is
-  still going to drain it or to disconnect.
+* `C01_nothing_pending_when_idle_connected`: while connected **on a transport that is still open**, the
+  queue is empty unless a task is still going to drain it or to disconnect.  Since `_drain_message_queue`
+  returns at once when the writer is closing, the liveness hypothesis is necessary:
+  `C01_pending_when_transport_lost`.
 * `C01_frames_contiguous`: a frame is written without an intervening suspension.
 -/
 namespace PyAirtouch.Props.C01
@@ -68,14 +70,15 @@ example : ∃ s, ReachableWF s ∧ s.core.trace.any isClientClose = false ∧ ha
   ⟨_, ⟨[.apiOpen, .apiSend 1 2 240 true, .run 1 .go, .run 1 .openOk, .run 1 .go, .apiSend 2 0 8 true],
     by decide, rfl⟩, by decide, by decide, by decide⟩
 
-/-- While the socket is connected nothing stays queued, unless some task is still going to run the
-    drain loop or to tear the connection down, namely
+/-- While the socket is connected and its current transport is still open (`curLive`: `rw = some w` and
+    `conns[w]` is `live _ _`, i.e. `writer.is_closing()` is false) nothing stays queued, unless some task is
+    still going to run the drain loop or to tear the connection down, namely
     * a task suspended in `drain()` after a write (`drainAwait`),
     * the connect task between `opened` and its first drain (`notifyWait connAfterNotify`),
     * a `close()` waiting for the background tasks it cancelled (`closeGather`),
     * a task waiting for the *current* transport to finish closing (`discWait w _` with `rw = some w`). -/
 theorem C01_nothing_pending_when_idle_connected {s : Sys} (hr : Reachable s)
-    (hconn : s.core.isConnected = true)
+    (hconn : s.core.isConnected = true) (hlive : curLive s.core = true)
     (hdrain : ∀ k ∈ s.tasks, ∀ w e r, k.pc ≠ .drainAwait w e r)
     (hfirst : ∀ k ∈ s.tasks, k.pc ≠ .notifyWait .connAfterNotify)
     (hclose : ∀ k ∈ s.tasks, k.pc ≠ .closeGather)
@@ -85,19 +88,36 @@ theorem C01_nothing_pending_when_idle_connected {s : Sys} (hr : Reachable s)
   cases hq : s.core.queue with
   | nil => rfl
   | cons e rest =>
-    obtain ⟨k, hk, hp⟩ := hI.busy hconn (by simp [hq])
+    obtain ⟨k, hk, hp⟩ := hI.busy hconn (by simp [hq]) hlive
     have := (not_promising_iff s.core.rw k.pc).2 ⟨hdrain k hk, hfirst k hk, hclose k hk, hdisc k hk⟩
     rw [hp] at this; cases this
 
 /-- connected, the reader waiting for data, two messages sent and written, every other task finished -/
-example : ∃ s, Reachable s ∧ s.core.isConnected = true ∧
+example : ∃ s, Reachable s ∧ s.core.isConnected = true ∧ curLive s.core = true ∧
     ((∀ k ∈ s.tasks, ∀ w e r, k.pc ≠ .drainAwait w e r) ∧
      (∀ k ∈ s.tasks, k.pc ≠ .notifyWait .connAfterNotify) ∧
      (∀ k ∈ s.tasks, k.pc ≠ .closeGather) ∧
      (∀ k ∈ s.tasks, ∀ w r, k.pc = .discWait w r → s.core.rw ≠ some w)) ∧
     wiredSids s.core.trace = [1, 2] ∧ pcAt s 3 = some (.readWait 0) :=
   ⟨_, ⟨[.apiOpen, .apiSend 1 2 240 true, .run 1 .go, .run 1 .openOk, .run 1 .go, .run 3 .go,
-        .apiSend 2 0 8 true], rfl⟩, by decide, idle_hyps (by decide), by decide, by decide⟩
+        .apiSend 2 0 8 true], rfl⟩, by decide, by decide, idle_hyps (by decide), by decide, by decide⟩
+
+/-- **the current transport has to be open.**  Once the transport is closing or lost the drain loop leaves
+    the queue alone (`if self._writer is None or self._writer.is_closing(): return`): connected, the peer
+    resets transport 0, then a `send` - its message stays queued although `is_connected` is still set and no
+    task is in any of the four states above (the reader is still blocked in `read`; it will be handed the
+    error, reset the connection, and the message goes out first on the next one). -/
+theorem C01_pending_when_transport_lost :
+    ∃ s, Reachable s ∧ s.core.isConnected = true ∧ curLive s.core = false ∧
+      ((∀ k ∈ s.tasks, ∀ w e r, k.pc ≠ .drainAwait w e r) ∧
+       (∀ k ∈ s.tasks, k.pc ≠ .notifyWait .connAfterNotify) ∧
+       (∀ k ∈ s.tasks, k.pc ≠ .closeGather) ∧
+       (∀ k ∈ s.tasks, ∀ w r, k.pc = .discWait w r → s.core.rw ≠ some w)) ∧
+      s.core.queue.map (·.sid) = [1] ∧ pcAt s 2 = some (.readWait 0) ∧
+      ∃ s', run s [.run 2 .readErr, .envLostRan 0, .run 2 .go, .run 2 .go, .run 4 .go, .run 4 .openOk, .run 4 .go] = some s' ∧
+        s'.core.queue = [] ∧ wiredSids s'.core.trace = [1] :=
+  ⟨_, ⟨[.apiOpen, .run 1 .go, .run 1 .openOk, .run 1 .go, .run 2 .go, .envLost 0, .apiSend 1 2 240 true], rfl⟩,
+    by decide, by decide, idle_hyps (by decide), by decide, by decide, _, rfl, by decide, by decide⟩
 
 /-- none of the four side conditions can be dropped: for each of them a reachable connected state
     with a non-empty queue in which the only tasks excluded by the hypotheses are of that kind -/
